@@ -166,11 +166,10 @@ class Route(Generic[Interface]):
         self.path_convertors: Dict[str, Convertor]
         self.path_format, self.path_convertors = compile_path(path)
         self.re_pattern = re.compile(
-            self.path_format.format_map(
-                {
-                    name: f"(?P<{name}>{convertor.regex})"
-                    for name, convertor in self.path_convertors.items()
-                }
+            re.sub(
+                r"\\{(\w+)\\}",
+                lambda m: f"(?P<{m[1]}>{self.path_convertors[m[1]].regex})",
+                re.escape(self.path_format),
             )
         )
         self.endpoint: Interface = endpoint
